@@ -518,6 +518,9 @@ def differint(ctx, f, x, n=1, x0=0):
 
 
     """
+    x = ctx.convert(x)
+    n = ctx.convert(n)
+    x0 = ctx.convert(x0)
     m = max(int(ctx.ceil(ctx.re(n)))+1, 1)
     r = m-n-1
     g = lambda x: ctx.quad(lambda t: (x-t)**r * f(t), [x0, x])
